@@ -809,9 +809,14 @@ impl<'a> Rw<'a> {
         self.replace_range(ms, los, "{ let __lo: usize = ".to_string(), "R13-range-map-unzip");
         self.replace_range(loe, his, "; let __hi: usize = ".to_string(), "R13-range-map-unzip");
         self.replace_range(hie, fs, "; let __f = ".to_string(), "R13-range-map-unzip");
+        // `acc_ty` = "A;B": element types of the two vectors (Verus needs them before the invariant mentions the vectors)
+        let (ta, tb) = match ls.acc_ty.split_once(';') {
+            Some((a, b)) => (format!(": Vec<{}>", a.trim()), format!(": Vec<{}>", b.trim())),
+            None => (String::new(), String::new()),
+        };
         self.replace_range(fe, end, format!(
-            "; let mut __a = Vec::new(); let mut __b = Vec::new(); let mut __i: usize = __lo; while __i < __hi{} decreases {}, {{ {} let __t = __f(__i); __a.push(__t.0); __b.push(__t.1); __i += 1; }} {} (__a, __b) }}",
-            inv, dec, ls.body_prologue, ls.after), "R13-range-map-unzip");
+            "; let mut __a{} = Vec::new(); let mut __b{} = Vec::new(); let mut __i: usize = __lo; while __i < __hi{} decreases {}, {{ {} let __t = __f(__i); __a.push(__t.0); __b.push(__t.1); __i += 1; }} {} (__a, __b) }}",
+            ta, tb, inv, dec, ls.body_prologue, ls.after), "R13-range-map-unzip");
         self.visit_expr(lo);
         self.visit_expr(hi);
         self.visit_expr(&map.args[0]);
@@ -3176,7 +3181,9 @@ fn main() {
                                     };
                                     match extract_fn(
                                         src, &f.attrs, vis_start, &f.sig, &f.block, f.span(), spec,
-                                        &label, !trait_.is_empty(), &plan.optargs, &mut log,
+                                        // a trait method emitted under an inherent header (plan `header` without
+                                        // ` for `) is an ordinary method as far as Verus is concerned
+                                        &label, !trait_.is_empty() && (header.is_empty() || header.contains(" for ")), &plan.optargs, &mut log,
                                     ) {
                                         Ok(fo) => {
                                             log.items.push(format!("fn {}::{}", file, label));
